@@ -173,6 +173,13 @@ func (db *DB) Backup(dir string) error {
 
 	// 如果使用 mmap IO实现, 需要先将所有文件大小更新为真实大小
 	if db.options.FileIOType == fio.MemoryMap {
+		// 拷贝完成后恢复映射区域对应的文件大小, 否则后续写入会访问超出文件末尾的映射页 (SIGBUS)
+		defer func() {
+			_ = db.activeFile.ReadWriter.(*fio.MMap).RestoreFileSize()
+			for _, file := range db.olderFiles {
+				_ = file.ReadWriter.(*fio.MMap).RestoreFileSize()
+			}
+		}()
 		if err := db.activeFile.ReadWriter.(*fio.MMap).ResetFileSize(); err != nil {
 			return err
 		}
